@@ -116,3 +116,12 @@ build_whole_unit("C12.build_end_to_end.variant_b", "C12", "B")
 from contracts.c07 import E as _E, u_end_epoch  # noqa: E402
 
 unit("C12.engine_hands_over_this_epochs_history", "C12", [f"{_E}._end_epoch", f"{_E}._tune_kernels"], summaries=["KernelSequence.end_epoch / tune (C07.kernel_sequence)"])(u_end_epoch)
+
+
+# the flat coordinates of a position (ravel_pytree / blackjax) follow JAX's flattening order of the object extract_position returns; the tuning
+# code lays the inverse mass matrix out in sorted-key order - the two agree iff a position is a PLAIN dict (same harness as C03.<Interface>)
+from contracts.c03 import liesel_unit, simple_iface_unit  # noqa: E402
+
+for _c in ("DictInterface", "DataclassInterface", "NamedTupleInterface"):
+    simple_iface_unit(_c, uid=f"C12.position_flattens_in_sorted_key_order.{_c}", prop="C12")
+liesel_unit("hier", uid="C12.position_flattens_in_sorted_key_order.LieselInterface", prop="C12")
